@@ -60,7 +60,7 @@ def gen_cases(tier, seed):
         nlab = rnd.choice([1, 2, 2, 3, 4, 5, 9, 16, 17, 40, 256, 257, 1000, 4096])
         mag = rnd.choice(["small", "u32", "big53", "max", "palette", "palette"])
         cases.append({"dtype": dt, "block": block, "shape": shape, "nlab": nlab, "mag": mag,
-                      "layout": rnd.choice(["C", "C", "F", "T"]),
+                      "layout": rnd.choice(["C", "C", "F", "T", "BE"]),
                       "style": {k2: rnd.random() < 0.5 for k2 in
                                 ("tables_after_values", "share_tables", "unsorted_tables",
                                  "wide_bits", "gaps", "channels_reversed")},
@@ -154,6 +154,8 @@ def run_case(case):
         arr = np.asfortranarray(base)
     elif case["layout"] == "T":
         arr = np.ascontiguousarray(base.transpose(3, 2, 1, 0)).transpose(3, 2, 1, 0)
+    elif case["layout"] == "BE":
+        arr = base.astype(dt.newbyteorder(">"))       # non-native byte order
     else:
         arr = base
     nested = base.tolist()
@@ -166,6 +168,7 @@ def run_case(case):
            "labels_gt_2_53": int(max(vals) > 2 ** 53),
            "tables_shared_by_encoder": 0, "alt_layouts_decoded": 0,
            "byte_sparse_palettes": int(case["mag"] == "palette"),
+           "big_endian_arrays": int(case["layout"] == "BE"),
            "multi_channel": int(C > 1), "chunk_of_64_cubed": int(Z * Y * X >= 64 ** 3)}
     v = []
     ctx = (f"{case['dtype']} shape(C,Z,Y,X)={case['shape']} block(x,y,z)={block} "
@@ -254,4 +257,5 @@ def gates(obs, tier):
         "alternative_layouts_decoded": obs.get("alt_layouts_decoded", 0) > 50,
         "production_sized_chunk": obs.get("chunk_of_64_cubed", 0) > 0,
         "byte_sparse_label_palettes": obs.get("byte_sparse_palettes", 0) > 50,
+        "big_endian_input_arrays": obs.get("big_endian_arrays", 0) > 50,
     }
